@@ -58,9 +58,9 @@ func (s *streamWriter) Invoke(msgs []actor.Envelope) {
 	var (
 		typeLookup   = make(map[string]int32)
 		typeNames    = make([]string, 0)
-		senderLookup = make(map[uint64]int32)
+		senderLookup = make(map[pidKey]int32)
 		senders      = make([]*actor.PID, 0)
-		targetLookup = make(map[uint64]int32)
+		targetLookup = make(map[pidKey]int32)
 		targets      = make([]*actor.PID, 0)
 		messages     = make([]*Message, 0, len(msgs))
 	)
@@ -213,12 +213,19 @@ func (s *streamWriter) Start() {
 	s.init()
 }
 
-func lookupPIDs(m map[uint64]int32, pid *actor.PID, pids []*actor.PID) (int32, []*actor.PID) {
+// pidKey identifies a PID in the lookup tables of an envelope. Address and ID
+// are kept apart, hashing their concatenation makes distinct PIDs collide.
+type pidKey struct {
+	address string
+	id      string
+}
+
+func lookupPIDs(m map[pidKey]int32, pid *actor.PID, pids []*actor.PID) (int32, []*actor.PID) {
 	if pid == nil {
 		return 0, pids
 	}
 	max := int32(len(m))
-	key := pid.LookupKey()
+	key := pidKey{address: pid.Address, id: pid.ID}
 	id, ok := m[key]
 	if !ok {
 		m[key] = max
